@@ -111,6 +111,18 @@ func Rec(rule int) {
 	}
 }
 
+// Tick only burns fuel (used by actions that must not carry a rule number).
+func Tick() {
+	r := Cur
+	if r == nil {
+		return
+	}
+	r.Fuel--
+	if r.Fuel < 0 {
+		panic(FuelPanic{})
+	}
+}
+
 // Finish classifies the end of a parse. p is the recovered panic value (nil
 // if Parser returned), isNil says Parser returned a nil pointer.
 func Finish(r *Run, p interface{}, isNil bool, n int, s string) Result {
